@@ -7,6 +7,10 @@ hook_commits = subprocess.run(['git','-C','/repo','log','--format=%H','--grep=^v
 
 # id -> (technique, level text, level_note, design_ref)
 CLAIMED = {
+ "C20": ("rapid differential property testing: generated patterns paired with a neutral engine-forcing variant, run on {RE2, regexp2} x {fast path, generic protocol path}; plus a validity-by-construction syntax sub-check",
+         "AST-generated ECMAScript patterns are paired with a semantically neutral variant that forces the other engine (confirmed by the VerifRegexpEngine hook) and executed in a pristine runtime (fast path) and in one de-optimised by forwarding wrappers, subclassing or own properties (generic path). The structural dumps of exec, test, match, matchAll, replace, replaceAll, search and split (indices, numbered and named captures, lastIndex after every call) must be equal four ways; built-ins are also compared with the ECMA-262 protocol algorithms evaluated over exec(), including exec call counts, and the UTF-16/lastIndex contract of RegExpBuiltinExec is checked on every dump. A second sub-check generates flag strings and patterns that are invalid by construction and demands SyntaxError from the constructor, literals and compile().",
+         "Trusted: the neutrality of the three variants; the JS transcription of ECMA-262 22.2.6 in the prelude; a Go transcription of 22.2.2 and a direct call into dlclark/regexp2 are used only to attribute known dependency defects, never for the verdict. A deviation common to both engines and both paths is invisible by design of the property. 14 known input classes (mostly defects of the regexp2 dependency and u-mode-only syntax errors) are thinned to 1/40 by construction and kept visible.",
+         "DESIGN.md 4/C20"),
  "C02": ("rapid property-based differential testing against a definitional interpreter (refjs) plus metamorphic testing under a catalogue of semantics-preserving rewrites",
          "Closed programs in the subset J0 are generated as ASTs, printed for goja and interpreted directly by refjs, an environment-record/completion-record interpreter written from ECMA-262; log sequence, completion value and exception must be equal in strict and sloppy mode and in global, function and direct-eval placement. Independently of refjs, 1-3 rewrites per program (constant -> variable, closure capture of every identifier, dynamic scope via a dead direct eval, dead code after break, function expression -> direct eval of its own source, block wrap) must leave goja's observation unchanged; the hook VerifDumpTypes measures whether a rewrite really changed the emitted instruction types.",
          "Trusted: refjs for the definitional half (validated against goja on ~100k programs with every disagreement triaged against the specification; the metamorphic half does not depend on it). Generator restrictions that exist only because of known goja findings are switchable and counted under excluded; each known finding is kept visible by a fixed probe. J0 excludes Annex B function-in-block semantics, private names, tagged templates, regex, BigInt and most built-ins.",
